@@ -152,6 +152,43 @@ def perturb(rng, m, nonpos):
     return b
 
 
+def extreme_probs(rng, m):
+    """one stochastic row gets probabilities (1 - 2^-k, 2^-k), k in {20, 30} (supports unchanged)"""
+    rows = [key for key, row in m["trans"].items()
+            if not m["absorbing"][int(key.split(",")[0])] and sum(1 for ns, p in row if F(p) > 0) == 2]
+    if not rows:
+        return False
+    key = rng.choice(rows)
+    eps = F(1, 2**rng.choice([20, 30]))
+    ps = [1 - eps, eps]
+    rng.shuffle(ps)
+    it = iter(ps)
+    m["trans"][key] = [[ns, (str(next(it)) if F(p) > 0 else "0")] for ns, p in m["trans"][key]]
+    return True
+
+
+def scale_rewards(m, k):
+    m["reward"] = {key: str(F(r) * k) for key, r in m["reward"].items()}
+
+
+def gen_rep(rng, multi):
+    """how the MDP / heuristic are handed to msdm (harness/impl/c03_impl.py build_rep); results always
+    come back by state / action index"""
+    fz = ["int0", "float0", "empty_str", "empty_tuple", "false"]
+    return {
+        "labels": rng.choice(["int", "int", "perm", "str", "tuple", "falsy:" + rng.choice(fz)]),
+        "alabels": rng.choice(["int", "int", "str", "falsy:" + rng.choice(fz)]),
+        "dist": rng.choice(["dict", "mixed"]),
+        "actions_as": rng.choice(["tuple", "list"]),
+        "cls": rng.choice(["tabular", "tabular", "quick"]),
+        "init_as": rng.choice(["dist", "state"]),
+        "gamma_int": rng.random() < .5,
+        "h_as": rng.choice(["callable", "number", "int"]),
+        "mdp_reuse": multi and rng.random() < .6,
+        "touch": rng.random() < .3,
+    }
+
+
 def gen_neartie(rng):
     """near-tie + long return time: a chain of k states, each with two actions that have IDENTICAL
     transitions (stay with probability 1 - 2^-10, move on with 2^-10) and per-step rewards that
@@ -173,7 +210,10 @@ def gen_neartie(rng):
         acts = [0, 1] + ([2] if nA == 3 and rng.random() < .6 else [])
         actions.append(acts)
         r0 = -(F(rng.randint(1, 3), 2**10) + F(rng.randrange(2**14), 2**24))
-        delta = F(rng.randint(4, 8), 2**24)
+        if rng.random() < .35:
+            delta = F(rng.randint(4, 8), 2**34)      # 2.3e-10 .. 4.7e-10: just above the 10-decimal rounding grid
+        else:
+            delta = F(rng.randint(4, 8), 2**24)      # 2^-22 .. 2^-21
         for a in acts:
             row = [[t, str(stay)], [t + 1, str(1 - stay)]]
             rng.shuffle(row)
@@ -187,7 +227,7 @@ def gen_neartie(rng):
     absorbing[goal] = True
     init = [[0, "1"]] if rng.random() < .5 else [[1, "1"]]
     return {"n": n, "nA": nA, "actions": actions, "trans": trans, "reward": reward, "absorbing": absorbing,
-            "init": init, "gamma": rng.choice(["1", "1", "1023/1024", "4095/4096"])}
+            "init": init, "gamma": rng.choice(["1", "1", "1023/1024", "4095/4096", "1048575/1048576"])}
 
 
 def gen_large(rng, K):
@@ -257,6 +297,7 @@ def gen_case(rng, tier, family=None):
     """a case = ONE planner object (heuristic, seed, flags) and the list of MDPs it plans on in turn"""
     family = family or "random"
     shape = family
+    tweak = {}
     if family == "neartie":
         plans = [gen_neartie(rng)]
     elif family == "large":
@@ -269,8 +310,14 @@ def gen_case(rng, tier, family=None):
         if sparse:
             m = gen_sparse(rng, 13 if tier == "quick" else 16, gamma)
         else:
-            m = gen_mdp.gen_mdp(rng, nmax=nmax, amax=3, gamma=gamma, proper=(gamma == "1"),
-                                min_states=rng.choice([1, 2, 3, 4]))
+            nm = 1 if rng.random() < .08 else nmax          # a few single-state MDPs in every run
+            m = gen_mdp.gen_mdp(rng, nmax=nm, amax=3, gamma=gamma,
+                                proper=(gamma == "1"), min_states=min(nm, rng.choice([1, 2, 3, 4])))
+        if rng.random() < .12:
+            tweak["extreme_probs"] = extreme_probs(rng, m)
+        if rng.random() < .12:
+            tweak["reward_scale"] = rng.choice([1000, 10**5])
+            scale_rewards(m, tweak["reward_scale"])
         plans = [m]
         if rng.random() < .4:
             # the same planner object is reused on an MDP with the same labels but different dynamics
@@ -294,7 +341,10 @@ def gen_case(rng, tier, family=None):
             "plans": [{"mdp": m, "vstar": [str(v) for v in V]} for m, V in zip(plans, Vall)],
             "h": [list(x.as_integer_ratio()) for x in hf], "hkind": kind,
             "seed": rng.randrange(4), "rao": rng.random() < .5, "rno": rng.random() < .5,
-            "default_args": family == "large"}
+            "default_args": family == "large", "tweak": tweak,
+            "rep": gen_rep(rng, len(plans) > 1) if family != "large" else {},
+            "budget_mode": (rng.choice(["exact", "exact", "short"])
+                            if family == "random" and len(plans) == 1 and rng.random() < .3 else None)}
 
 
 def view(case, k):
@@ -375,7 +425,7 @@ def search_failing(case, res):
     n, nA, P, R, av, absf, ini, g, masked = prep(case["mdp"])
     Vs = [F(x) for x in case["vstar"]]
     scale = max([F(1)] + [abs(x) for x in Vs] + [abs(vlib.frac(x)) for x in case["h"]])
-    tiny = F(1, 10**7) * scale
+    tiny = F(2, 10**9) * scale
     if not res["converged"]:
         return {"clause": "LAO* does not report convergence", "tips": res.get("tips")}
     for s, v in res["value_map"]:
@@ -604,7 +654,7 @@ def run(ctx):
             impl[i] = r
     terms, meta = [], []
     feats, infos = {}, []
-    nplans = nreuse = 0
+    nplans = nreuse = nshort = 0
     for i in small:
         case, res = cases[i], impl[i]
         if "error" in res:
@@ -618,6 +668,20 @@ def run(ctx):
                 ctx.violation("C03:laostar-raises:" + rk["error"].split(":")[0],
                               {"case": case, "plan_index": k, "error": rk["error"], "trace": rk.get("trace_back")}, found=True)
                 continue
+            if rk.get("budget_mode") == "short" and not rk["converged"]:
+                # one expansion short of what is needed: an honest "not converged" is outside the property;
+                # what remains checkable is that every held value is still an upper bound
+                nshort += 1
+                Vsx = [F(x) for x in cv["vstar"]]
+                sc = max([F(1)] + [abs(x) for x in Vsx] + [abs(vlib.frac(x)) for x in case["h"]])
+                low = [(s, v) for s, v in rk["value_map"] if isinstance(v, str) or vlib.frac(v) < Vsx[s] - F(2, 10**9) * sc]
+                if low:
+                    ctx.violation("C03:value held for an explored state is below its optimal value",
+                                  {"case": case, "plan_index": k, "budget": rk["budget"], "states": low[:3]}, found=True)
+                continue
+            if not rk.get("policy_stable", True):
+                ctx.violation("C03:returned-policy-changes-after-the-planner-object-is-reused",
+                              {"case": case, "plan_index": k, "early": rk.get("policy_early"), "late": rk["policy"]}, found=False)
             t_chk, t_run, t_anc, info = terms_for(cv, rk)
             infos.append(info)
             terms += [t_chk, t_run, t_anc]
@@ -629,6 +693,20 @@ def run(ctx):
             f["rao"], f["rno"] = case["rao"], case["rno"]
             f["seed_%d" % case["seed"]] = True
             f["planner_object_reused"] = k > 0
+            rp = case.get("rep", {})
+            for key in ("labels", "alabels", "dist", "actions_as", "cls", "init_as", "h_as"):
+                f["rep_%s_%s" % (key, rp.get(key))] = True
+            f["rep_gamma_int_1"] = bool(rp.get("gamma_int")) and F(cv["mdp"]["gamma"]) == 1
+            f["rep_mdp_object_reused"] = bool(rp.get("mdp_reuse")) and k == 2
+            f["rep_cached_views_touched"] = bool(rp.get("touch")) and rp.get("cls") != "quick"
+            f["budget_exactly_needed"] = rk.get("budget_mode") == "exact"
+            f["h_noncallable_effective"] = rp.get("h_as") != "callable" and len({tuple(x) for x in case["h"]}) == 1
+            f["init_as_state_effective"] = rp.get("init_as") == "state" and len(cv["mdp"]["init"]) == 1
+            f["tweak_extreme_probs"] = bool(case.get("tweak", {}).get("extreme_probs"))
+            f["tweak_reward_scale"] = bool(case.get("tweak", {}).get("reward_scale"))
+            f["gamma_" + cv["mdp"]["gamma"]] = True
+            f["single_state"] = cv["mdp"]["n"] == 1
+            f["initially_all_absorbing_support"] = all(cv["mdp"]["absorbing"][s] for s, p in cv["mdp"]["init"] if F(p) > 0)
             for kk, v in f.items():
                 if isinstance(v, bool):
                     feats[kk] = feats.get(kk, 0) + int(v)
@@ -722,6 +800,7 @@ def run(ctx):
         "ancestor_mirror_evaluations": nanc, "ancestor_mirror_drift_cases": anc_drift,
         "main_loop_iterations_checked": sum(x["steps"] for x in infos),
         "plans": nplans, "plans_on_reused_planner_object": nreuse,
+        "budget_one_short_honestly_unconverged": nshort,
         "neartie_cases": sum(1 for c in cases if c.get("family") == "neartie"),
         "large_python_only": large_info,
         "cases_with_unexplored_reachable_states": sum(1 for x in infos if x["pruned"]),
